@@ -21,8 +21,10 @@ package main
 //   time      the context manager's mock clock: the delayed un-management
 //             goroutines (ScheduleUnmanageHAProxyEndpoints /
 //             scheduleUnmanageHAProxyGlobal) sleep staleVersionTTL on it
-// After every step the stub's state is recorded (compared with the model
-// C14.Reload by run_reload) and the monitor of monitor_reload.go runs.
+// After every step the stub's state is recorded (compared with the model by
+// C14.ReloadReq.run_reload2, which is tied to C14.Reload.run Recheck by
+// C14_accepted_reload_case_is_a_run; run_reload2 refuses a case with a negative
+// clock step) and the monitor of monitor_reload.go runs.
 
 import (
 	"fmt"
